@@ -73,18 +73,23 @@ func newMsg(topic string, payload []byte, qos byte) *Message {
 
 func (s *Session) store() {
 	logger.SpanDebugf(nil, "session %v store", s.info.ClientID)
-	str, err := s.encode()
-	if err != nil {
-		logger.SpanErrorf(nil, "encode session %+v failed: %v", s, err)
-		return
-	}
+	// The requests reach the store loop from their own goroutines, in any
+	// order. So they do not carry a snapshot, which an older one could
+	// overwrite: the loop encodes the session as it is when it stores it.
 	ss := SessionStore{
-		key:   s.info.ClientID,
-		value: str,
+		key:  s.info.ClientID,
+		sess: s,
 	}
 	go func() {
 		s.storeCh <- ss
 	}()
+}
+
+// encodeCurrent encodes the current content of the session.
+func (s *Session) encodeCurrent() (string, error) {
+	s.Lock()
+	defer s.Unlock()
+	return s.encode()
 }
 
 func (s *Session) encode() (string, error) {
